@@ -31,7 +31,13 @@ BOOKKEEP = [
       wrap=("impl PriceRepositoryBuilder {", "}"),
       contract="""
         // C06: no precondition -- every event (zero amounts included) must be handled without dividing by zero
-        ensures true,   // @insert_price.total
+        ensures
+            // a zero amount carries no rate and cannot be inverted: ignored
+            (event.price_x.v() == 0real || event.price_y.v() == 0real) ==> final(self).log() == old(self).log(),   // @insert_price.zero_amount_ignored
+            // C09: a price recorded for X in Y also serves Y in X, as its reciprocal, same date and source
+            (event.price_x.v() != 0real && event.price_y.v() != 0real) ==> final(self).log() == old(self).log()
+                .push(PriceRecord { source, date: event.date, of: event.price_x.commodity, with: event.price_y.commodity, rate: event.price_y.v() / event.price_x.v() })
+                .push(PriceRecord { source, date: event.date, of: event.price_y.commodity, with: event.price_x.commodity, rate: event.price_x.v() / event.price_y.v() }),   // @insert_price.both_directions_reciprocal
 """),
     U("callsite:insert_impl division", PD, [r"impl<'ctx> PriceRepositoryBuilder<'ctx>", r"fn insert_impl\b"], fn="insert_impl_division",
       slice=r"price_with\.value\s*/\s*price_of\.value\b()", slice_count=1, no_canary=True,
